@@ -53,6 +53,10 @@ def make_case(seed, index, tier):
     supply = {field: rng.randint(1, 5) * unit + (0.25 if fractional and rng.random() < 0.3 else 0)
               for field in fields}
 
+    if fractional and rng.random() < 0.5:
+        # the supply is declared with whole numbers (ints), the amounts moved are fractions
+        supply = {field: max(1, int(value)) for field, value in supply.items()}
+
     def pick(upper):
         if not fractional:
             return rng.randint(0, upper)
